@@ -733,28 +733,135 @@ func (in *inst) writeGenerated(files []*ast.File) {
 		fmt.Fprintf(&b, "\t\t%q,\n", s)
 	}
 	fmt.Fprintf(&b, "\t})\n}\n\n")
-	// R4: reset every package-level sync.Map (process-wide caches) to cold
-	fmt.Fprintf(&b, "// SimReset makes the package's process-wide caches cold again.\nfunc SimReset() {\n")
+	// R4: SimReset puts every mutable package-level variable back into the state it
+	// has at process start, so that each simulated run is a function of its scenario
+	// only: sync.Map caches become cold, memo tables empty, sync.Once/Mutex fresh,
+	// lazily initialised variables uninitialised again.  Variables whose initialiser
+	// is not a side-effect-free literal/make/new expression are left alone (listed).
+	fmt.Fprintf(&b, "// SimReset restores the package's process-wide mutable state to its initial value.\nfunc SimReset() {\n")
 	sc := in.pkg.Scope()
-	needSync := false
-	for _, name := range sc.Names() {
-		v, ok := sc.Lookup(name).(*types.Var)
-		if !ok {
-			continue
-		}
-		if nt, ok := v.Type().(*types.Named); ok && nt.Obj().Pkg() != nil && nt.Obj().Pkg().Path() == "sync" && nt.Obj().Name() == "Map" {
-			fmt.Fprintf(&b, "\t%s = sync.Map{}\n", name)
-			needSync = true
+	imports := map[string]string{}
+	inits := map[string]ast.Expr{}
+	for _, f := range files {
+		for _, d := range f.Decls {
+			gd, ok := d.(*ast.GenDecl)
+			if !ok || gd.Tok != token.VAR {
+				continue
+			}
+			for _, sp := range gd.Specs {
+				vs := sp.(*ast.ValueSpec)
+				if len(vs.Values) == len(vs.Names) {
+					for i, n := range vs.Names {
+						inits[n.Name] = vs.Values[i]
+					}
+				}
+			}
 		}
 	}
-	fmt.Fprintf(&b, "}\n")
+	var skipped []string
+	for _, name := range sc.Names() {
+		v, ok := sc.Lookup(name).(*types.Var)
+		if !ok || name == "_" {
+			continue
+		}
+		isSyncMap := false
+		if nt, ok := v.Type().(*types.Named); ok && nt.Obj().Pkg() != nil && nt.Obj().Pkg().Path() == "sync" {
+			switch nt.Obj().Name() {
+			case "Map":
+				isSyncMap = true
+			case "Pool":
+				continue // per-world state lives in the simulator
+			}
+		}
+		if !isSyncMap && !in.mutable[v] {
+			continue
+		}
+		init, has := inits[name]
+		switch {
+		case !has || isSyncMap:
+			fmt.Fprintf(&b, "\tzzZero(&%s)\n", name)
+		case pureInit(init):
+			var eb bytes.Buffer
+			if err := format.Node(&eb, in.fset, init); err != nil {
+				skipped = append(skipped, name)
+				continue
+			}
+			ast.Inspect(init, func(n ast.Node) bool {
+				if id, ok := n.(*ast.Ident); ok {
+					if pn, ok := in.info.Uses[id].(*types.PkgName); ok {
+						imports[id.Name] = pn.Imported().Path()
+					} else if id.Name == rtAlias {
+						imports[rtAlias] = rtPath
+					}
+				}
+				return true
+			})
+			fmt.Fprintf(&b, "\t%s = %s\n", name, eb.String())
+		default:
+			skipped = append(skipped, name)
+		}
+	}
+	for _, n := range skipped {
+		fmt.Fprintf(&b, "\t// not reset (initialiser is not a plain literal): %s\n", n)
+	}
+	fmt.Fprintf(&b, "}\n\nfunc zzZero[T any](p *T) {\n\tvar z T\n\t*p = z\n}\n")
 	src := b.String()
-	if needSync {
-		src = strings.Replace(src, "import "+rtAlias, "import \"sync\"\nimport "+rtAlias, 1)
+	delete(imports, rtAlias)
+	var imps []string
+	for alias, path := range imports {
+		imps = append(imps, fmt.Sprintf("import %s %q", alias, path))
+	}
+	sort.Strings(imps)
+	if len(imps) > 0 {
+		src = strings.Replace(src, "import "+rtAlias, strings.Join(imps, "\n")+"\nimport "+rtAlias, 1)
 	}
 	out, err := format.Source([]byte(src))
 	if err != nil {
 		fatal("generated file: %v", err)
 	}
 	must(os.WriteFile(filepath.Join(in.spec.outDir, "zz_simgen_generated.go"), out, 0o644))
+}
+
+// pureInit reports whether an initialiser can be re-evaluated without side effects:
+// literals, composite literals, make/new, nil/true/false, unary/binary expressions of those.
+func pureInit(e ast.Expr) bool {
+	switch x := e.(type) {
+	case *ast.BasicLit:
+		return true
+	case *ast.Ident:
+		return x.Name == "nil" || x.Name == "true" || x.Name == "false"
+	case *ast.CompositeLit:
+		for _, el := range x.Elts {
+			if kv, ok := el.(*ast.KeyValueExpr); ok {
+				if !pureInit(kv.Value) {
+					return false
+				}
+				continue
+			}
+			if !pureInit(el) {
+				return false
+			}
+		}
+		return true
+	case *ast.UnaryExpr:
+		return pureInit(x.X)
+	case *ast.BinaryExpr:
+		return pureInit(x.X) && pureInit(x.Y)
+	case *ast.ParenExpr:
+		return pureInit(x.X)
+	case *ast.CallExpr:
+		if id, ok := x.Fun.(*ast.Ident); ok && (id.Name == "make" || id.Name == "new") {
+			return true
+		}
+		// conversions of literals such as int64(0), json.Delim('{')
+		if len(x.Args) == 1 {
+			if _, lit := x.Args[0].(*ast.BasicLit); lit {
+				return true
+			}
+		}
+		return false
+	case *ast.FuncLit:
+		return true
+	}
+	return false
 }
